@@ -4,20 +4,25 @@
 // sub-ops (see lean/ZV/Drv/C13.lean for the two that also go to the model):
 //
 //	c13 decide <abstract input…> <issuerIdx> <derhex>      T2 + T3   real ParseResponseForCert vs the Lean decision model
-//	c13 resp   <ca> <mode> <inil> <algok> <template…>      T2 + T3   CreateResponse -> ParseResponse round trip
+//	c13 resp   <ca> <mode> <inil> <algok> <template…> <keyKind> <reqAlgo>   T2 + T3   CreateResponse -> ParseResponse round trip (+ signingParamsForPublicKey model)
 //	c13 req    <ca> <hash> <serial> <nilopts>              T3        CreateRequest -> ParseRequest
 //	c13 reqm   <hash> <namehash> <keyhash> <serial>        T3        Request.Marshal -> ParseRequest
 //	c13 tamper <ca> <cert n|serial> <from> <to> <nmask> <seed> <derhex>   T3  every single-byte mutation in [from,to)
+//	c13 tstruct <ca> <cert n|serial> <part> <nparts> <seed> <derhex>      T3  all 255 values at every structural position (tags, lengths, unused-bits octet, algorithm identifiers)
 package c13
 
 import (
 	"bytes"
 	"crypto"
+	"crypto/ecdsa"
+	"crypto/elliptic"
+	stdrsa "crypto/rsa"
 	"encoding/asn1"
 	"fmt"
 	"math/big"
 	"strconv"
 	"strings"
+	"sync"
 	"time"
 
 	"github.com/zmap/zcrypto/x509"
@@ -279,11 +284,35 @@ func genDecide(g *zv.Gen) {
 			}
 		}
 	}
+	// signature BIT STRING declaring 1..7 unused bits over a value whose last bits are zero (well-formed DER): what is
+	// verified is the right-aligned value, so a good signature must stop verifying — every CA x direct / delegated /
+	// wrong CA / issuer-signed with certificates
+	for ca := 0; ca < nCA; ca++ {
+		for _, mode := range []int{0, 1, 2, 6, 8} {
+			pads := []int{1, 2, 4}
+			if mode == 0 {
+				pads = []int{1, 2, 3, 4, 5, 6, 7}
+			}
+			for _, k := range pads {
+				sp := &asmSpec{ca: ca, rtag: 1 + k%2, produced: base, padBits: k}
+				setup(sp, ca, mode)
+				sp.singles = mkSingles(1)
+				der := assemble(sp)
+				for _, inil := range []bool{false, true} {
+					emitDecide(g, der, ca, inil, "n")
+					emitDecide(g, der, ca, inil, sp.singles[0].serial.String())
+				}
+			}
+		}
+	}
 	// random
 	n := g.N(1500, 30000)
 	for i := 0; i < n; i++ {
 		ca := r.Intn(nCA)
 		sp := &asmSpec{ca: ca, rtag: 1, produced: base + int64(r.Intn(100000))}
+		if r.Chance(8) {
+			sp.padBits = 1 + r.Intn(3)
+		}
 		mode := 0
 		if r.Chance(60) {
 			mode = r.Intn(10)
@@ -365,11 +394,36 @@ func respSetup(ca, mode int) (signer, responderCert *ent, embed *ent) {
 	case 4:
 		return p[ca], p[ca], p[ca]
 	}
+	if mode == 6 {
+		return offCurve(), p[ca], nil
+	}
 	return p[idxEd], p[idxEd], nil
 }
 
+var (
+	offCurveOnce sync.Once
+	offCurveEnt  *ent
+)
+
+// offCurve: an ECDSA key on a curve that is none of elliptic.P224/P256/P384/P521 as far as signingParamsForPublicKey's
+// `switch pub.Curve` can tell (the parameters of P-256 held in a plain *elliptic.CurveParams): the "unknown elliptic
+// curve" arm.  It has no certificate of its own; name / std are only used for tags and keyKind.
+func offCurve() *ent {
+	offCurveOnce.Do(func() {
+		base := pool()[2]
+		k := base.key.(*ecdsa.PrivateKey)
+		cp := *elliptic.P256().Params()
+		cp.Name = "P-256 (generic parameters)"
+		nk := &ecdsa.PrivateKey{PublicKey: ecdsa.PublicKey{Curve: &cp, X: k.X, Y: k.Y}, D: k.D}
+		std := *base.std
+		std.PublicKey = &nk.PublicKey
+		offCurveEnt = &ent{name: "off-curve ecdsa", key: nk, cert: base.cert, std: &std, der: base.der}
+	})
+	return offCurveEnt
+}
+
 func algOK(signer *ent, sc int) bool {
-	if signer == pool()[idxEd] {
+	if signer == pool()[idxEd] || signer == offCurveEnt {
 		return false
 	}
 	c := sigChoices[sc]
@@ -379,9 +433,32 @@ func algOK(signer *ent, sc int) bool {
 	return c.ok && c.rsa == isRSA(signer)
 }
 
-// resp line: ca mode inil algok status serial this next revAt reason hash crit | sigchoice nsec tzoff next
+// keyKind: the arm of signingParamsForPublicKey's type / curve switch the signer's key falls into, decided on the
+// standard library's view of the certificate (0 rsa, 1 p224, 2 p256, 3 p384, 4 p521, 5 other curve, 6 other key type).
+func keyKind(e *ent) int {
+	switch k := e.std.PublicKey.(type) {
+	case *stdrsa.PublicKey:
+		return 0
+	case *ecdsa.PublicKey:
+		switch k.Curve.Params().Name {
+		case "P-224":
+			return 1
+		case "P-256":
+			return 2
+		case "P-384":
+			return 3
+		case "P-521":
+			return 4
+		}
+		return 5
+	}
+	return 6
+}
+
+// resp line: ca mode inil algok status serial this next revAt reason hash crit | sigchoice nsec tzoff next | keyKind requestedAlgo
+// (the last two are what the Lean model of signingParamsForPublicKey needs; they are re-derived here and must agree)
 func execResp(f []string) zv.Out {
-	if len(f) != 17 {
+	if len(f) != 19 {
 		panic("resp: wrong number of fields")
 	}
 	ca, mode, inil, algok := atoi(f[1]), atoi(f[2]), f[3] == "1", f[4] == "1"
@@ -392,8 +469,8 @@ func execResp(f []string) zv.Out {
 	p := pool()
 	iss := p[ca]
 	signer, rcert, embed := respSetup(ca, mode)
-	if algok != algOK(signer, sc) {
-		return zv.Out{Go: "harness-inconsistency", Viol: "harness inconsistency: algok bit on the line does not match signer/algorithm"}
+	if algok != algOK(signer, sc) || atoi(f[17]) != keyKind(signer) || atoi(f[18]) != int(sigChoices[sc].algo) {
+		return zv.Out{Go: "harness-inconsistency", Viol: "harness inconsistency: algok / key kind / requested algorithm on the line do not match signer and signature choice"}
 	}
 	loc := time.FixedZone("x", tz)
 	mk := func(sec int64) time.Time { return time.Unix(sec, nsec).In(loc) }
@@ -424,10 +501,16 @@ func execResp(f []string) zv.Out {
 		if mode == 5 {
 			o.Tags = append(o.Tags, "resp:ed25519-refused")
 		}
+		if mode == 6 {
+			o.Tags = append(o.Tags, "resp:unknown-curve-refused")
+		}
 		return o
 	}
 	if mode == 5 {
 		return zv.Out{Go: "created", Viol: "CreateResponse accepted an Ed25519 signer", Tags: tags}
+	}
+	if mode == 6 { // outside the creation API's documented set; the model (signingParams .otherCurve = err) says err-create
+		return zv.Out{Go: "created", Tags: append(tags, "resp:unknown-curve-ACCEPTED")}
 	}
 	var issuer *x509.Certificate
 	if !inil {
@@ -442,7 +525,7 @@ func execResp(f []string) zv.Out {
 		}
 		return o
 	}
-	o := zv.Out{Go: canon(r, 0), Tags: append(tags, "resp:ok", "resp:sig="+r.SignatureAlgorithm.String())}
+	o := zv.Out{Go: canon(r, 0) + fmt.Sprintf(" sig=%d", int(r.SignatureAlgorithm)), Tags: append(tags, "resp:ok", "resp:sig="+r.SignatureAlgorithm.String())}
 	fail := func(format string, a ...any) {
 		if o.Viol == "" {
 			o.Viol = "round trip: " + fmt.Sprintf(format, a...)
@@ -532,9 +615,39 @@ func execResp(f []string) zv.Out {
 			fail("SignatureAlgorithm %v came back as %v", getAlg, r.SignatureAlgorithm)
 		}
 	}
+	// the signature BIT STRING is bound bit for bit: declaring k unused bits (well-formed when the value ends in k zero
+	// bits) changes the value that is verified, and flipping one bit of the signed data or of the signature is refused
+	if issuer != nil || embed != nil {
+		mutated := func(pos int, v byte) bool {
+			mut := append([]byte{}, der...)
+			mut[pos] = v
+			_, err := ocsp.ParseResponse(mut, issuer)
+			return err == nil
+		}
+		for _, g := range regions(der) {
+			switch g.name {
+			case "sig-bitstring-hdr":
+				tz := sigTrailingZeros(der)
+				for k := 1; k <= tz && k <= 7; k++ {
+					if mutated(g.to-1, byte(k)) {
+						fail("signature BIT STRING re-declared with %d unused bits is accepted", k)
+					}
+					o.Tags = append(o.Tags, "resp:unused-bits-mutant-refused")
+				}
+			case "sig", "tbsResponseData":
+				if p := g.from + (g.to-g.from)*(1+int(this&3))/5; mutated(p, der[p]^(1<<uint(serial.Bit(0)+2*serial.Bit(1)))) {
+					fail("one flipped bit inside %s is accepted", g.name)
+				}
+			case "sigalg-oid":
+				if mutated(g.to-1, der[g.to-1]^[]byte{1, 7}[this&1]) {
+					fail("signatureAlgorithm OID changed in its last arc and still accepted")
+				}
+			}
+		}
+	}
 	// ParseResponseForCert: same answer for the matching serial, error for another one
 	r2, err := ocsp.ParseResponseForCert(der, &x509.Certificate{SerialNumber: serial}, issuer)
-	if err != nil || canon(r2, 0) != o.Go {
+	if err != nil || canon(r2, 0) != canon(r, 0) || r2.SignatureAlgorithm != r.SignatureAlgorithm {
 		fail("ParseResponseForCert with the matching serial disagrees with ParseResponse")
 	}
 	if _, err := ocsp.ParseResponseForCert(der, &x509.Certificate{SerialNumber: new(big.Int).Add(serial, big.NewInt(1))}, issuer); err == nil {
@@ -557,8 +670,8 @@ func genResp(g *zv.Gen) {
 	r := g.Rng
 	emit := func(ca, mode int, inil bool, status int, serial string, this, next, revAt int64, reason, hash int, crit bool, sc int, nsec int64, tz, nExt int) {
 		signer, _, _ := respSetup(ca, mode)
-		g.Emitf("c13 resp %d %d %s %s %d %s %d %d %d %d %d %s %d %d %d %d", ca, mode, b01(inil), b01(algOK(signer, sc)), status, serial,
-			this, next, revAt, reason, hash, b01(crit), sc, nsec, tz, nExt)
+		g.Emitf("c13 resp %d %d %s %s %d %s %d %d %d %d %d %s %d %d %d %d %d %d", ca, mode, b01(inil), b01(algOK(signer, sc)), status, serial,
+			this, next, revAt, reason, hash, b01(crit), sc, nsec, tz, nExt, keyKind(signer), int(sigChoices[sc].algo))
 	}
 	serials := []string{"0", "1", "127", "128", "255", "256", "65535", "-1", "-129", "1427247692705959881058285969449495136382746624",
 		"1427247692705959881058285969449495136382746623", "713623846352979940529142984724747568191373311"}
@@ -578,7 +691,7 @@ func genResp(g *zv.Gen) {
 			emit(ca, 0, false, 1, "77", 1700000000, zeroTimeSec, 1500000000+int64(reason), reason, 0, false, 0, 0, 0, 0)
 		}
 		for sc := range sigChoices {
-			for _, mode := range []int{0, 1} {
+			for _, mode := range []int{0, 1, 5, 6} {
 				emit(ca, mode, false, 1, "78", 1700000000, 1700000100, 1500000000, 4, 5, false, sc, 0, 0, 1)
 			}
 		}
@@ -602,7 +715,7 @@ func genResp(g *zv.Gen) {
 	for i := 0; i < n; i++ {
 		ca, mode := r.Intn(nCA), r.Intn(5)
 		if r.Chance(2) {
-			mode = 5
+			mode = 5 + r.Intn(2)
 		}
 		st := r.Intn(3)
 		serial := serials[r.Intn(len(serials))]
@@ -761,6 +874,8 @@ func exec(line string) zv.Out {
 		return execReqM(f[1:])
 	case "tamper":
 		return execTamper(f[1:])
+	case "tstruct":
+		return execTStruct(f[1:])
 	}
 	panic("unknown sub-op " + f[1])
 }
@@ -775,5 +890,5 @@ func gen(g *zv.Gen) {
 
 func init() {
 	zv.Register(&zv.Prop{ID: "C13", Topic: "c13", Gen: gen, Exec: exec, Timeout: 20 * time.Minute, // the all-positions x all-255-values tamper lines are heavy; on a loaded machine 2 min was not enough
-		Rule: "decide: hand-assembled OCSP responses (0..4 single responses with duplicate serials and every CHOICE-arm combination, 0..2 embedded certificates in 10 signer/certificate arrangements, good/corrupted signatures, swapped TBS, responder by name/key hash/bad tag, status/type/trailing-data/truncation variants) x issuer or nil x cert nil/matching/absent, decoded independently with the standard library into the model's abstract input; resp: CreateResponse templates (4 issuer key types x 6 signer modes x status x reason x issuer hash x signature algorithm x extensions x times incl. GeneralizedTime bounds, nanoseconds, zones) parsed back and compared field by field; req: CreateRequest/Marshal -> ParseRequest over all crypto.Hash ids; tamper: every byte position of signed responses x several xor masks. A case is one distinct line; for tamper one line covers a position range of one response."})
+		Rule: "decide: hand-assembled OCSP responses (0..4 single responses with duplicate serials and every CHOICE-arm combination, 0..2 embedded certificates in 10 signer/certificate arrangements, good/corrupted signatures, signature BIT STRINGs declaring 1..7 unused bits over a value ending in zero bits, swapped TBS, responder by name/key hash/bad tag, status/type/trailing-data/truncation variants) x 6 issuers x issuer or nil x cert nil/matching/absent, decoded independently with the standard library into the model's abstract input; resp: CreateResponse templates (issuers RSA-1024/2048, P-256, P-384, P-224, P-521 and delegated responders P-256, RSA-2048, RSA-1024, P-384, P-521, P-224 x 6 signer modes x default and each of 13 requested signature algorithms x status x reason x issuer hash x extensions x times incl. GeneralizedTime bounds, nanoseconds, zones) parsed back and compared field by field, the accept/refuse decision and the resulting SignatureAlgorithm compared with the Lean model of signingParamsForPublicKey, and each created response re-parsed with its signature BIT STRING re-declared with k unused bits (k up to the number of trailing zero bits), one flipped bit in TBS and signature, and a changed algorithm OID; req: CreateRequest/Marshal -> ParseRequest over all crypto.Hash ids; tstruct: ALL 255 values at every structural byte (tags, every length octet of every wrapper, unused-bits octets, algorithm identifiers, status, response type; 12 masks on the first/last content bytes and in the embedded certificate's outer algorithm) of responses of every issuer x {issuer-signed with >= 7 trailing zero signature bits, delegated, issuer-signed + certificate, hand-assembled two certificates / key-hash responder / 3 single responses}; tamper: every byte position of signed responses x walking-bit and random masks, all 255 values at every position of one response (thorough: of 18), random windows x 6-12 masks. An accepted mutant is a violation unless tbsResponseData, the signature BIT STRING (value, BitLength) and the signatureAlgorithm OID are byte-identical (by position in the original and by an independent decode of the mutant), every reported field is unchanged, golang.org/x/crypto/ocsp accepts it too, and the difference is one of: wrapper (length octets of EXPLICIT wrappers / algorithm parameters, which encoding/asn1 does not compare), trailing-cert (certificates after the first), cert-dropped (certs field no longer recognised AND the response verifies directly under the issuer with the standard library), cert-outer (first embedded certificate differs outside its tbsCertificate and signatureValue, both byte-identical). A case is one distinct line; a tamper/tstruct line covers a position set of one response."})
 }
